@@ -218,8 +218,7 @@ func (i *interpreter) symFloatBinop(op token.Token, x, y value) value {
 			if t, ok := st.RealArith(o, a, b); ok {
 				return i.mkSym(t, types.Float64)
 			}
-			i.noteInexact(o)
-			return sym{st.InexactVar(o, a, b), types.Float64}
+			return i.inexactArith(o, a, b)
 		case token.QUO:
 			// division by zero gives Inf/NaN which the exact domain cannot carry
 			if b.Op == "realconst" {
@@ -274,6 +273,69 @@ func (i *interpreter) symFloatBinop(op token.Token, x, y value) value {
 		return i.mkSym(st.FPCmp("fp.leq", b, a), types.Bool)
 	}
 	panic(fmt.Sprintf("symFloatBinop(fp): %s", op))
+}
+
+func isRealConst(t *Term, v int64) bool {
+	return t.Op == "realconst" && t.R.IsInt() && t.R.Num().IsInt64() && t.R.Num().Int64() == v
+}
+
+// inexactArith: a float operation on the exact domain whose result is not
+// provably exact. The result is an Ackermannised unknown constrained only by
+// facts that hold for every correctly rounded finite result (identities with
+// 0 and 1, sign rules, monotonicity of rounding).
+func (i *interpreter) inexactArith(o string, a, b *Term) value {
+	st := i.st
+	z := st.RealOfFloat(0)
+	switch o {
+	case "+":
+		if isRealConst(a, 0) {
+			return sym{b, types.Float64}
+		}
+		if isRealConst(b, 0) {
+			return sym{a, types.Float64}
+		}
+	case "-":
+		if isRealConst(b, 0) {
+			return sym{a, types.Float64}
+		}
+	case "*":
+		if isRealConst(a, 1) {
+			return sym{b, types.Float64}
+		}
+		if isRealConst(b, 1) {
+			return sym{a, types.Float64}
+		}
+		if isRealConst(a, 0) || isRealConst(b, 0) {
+			return float64(0)
+		}
+	}
+	i.noteInexact(o)
+	if o == "+" || o == "*" {
+		if a.id > b.id {
+			a, b = b, a
+		}
+	}
+	r := st.InexactVar(o, a, b)
+	le := func(x, y *Term) *Term { return st.RealCmp("<=", x, y) }
+	imp := func(p, q *Term) { i.addFact(st.Or(st.Not(p), q)) }
+	switch o {
+	case "+":
+		imp(le(z, b), le(a, r))
+		imp(le(b, z), le(r, a))
+		imp(le(z, a), le(b, r))
+		imp(le(a, z), le(r, b))
+	case "-":
+		imp(le(z, b), le(r, a))
+		imp(le(b, z), le(a, r))
+		imp(le(b, a), le(z, r))
+		imp(le(a, b), le(r, z))
+	case "*":
+		imp(st.And(le(z, a), le(z, b)), le(z, r))
+		imp(st.And(le(a, z), le(b, z)), le(z, r))
+		imp(st.And(le(z, a), le(b, z)), le(r, z))
+		imp(st.And(le(a, z), le(z, b)), le(r, z))
+	}
+	return sym{r, types.Float64}
 }
 
 // assumeDivRel adds the sign facts that hold for a correctly rounded finite
